@@ -16,7 +16,10 @@ def facts(inst):
     F = {"now": inst["now"], "tasks": {}, "workers": {}, "opts": inst.get("opts", {})}
     for pi, ws in enumerate(inst["cluster"]):
         for wi, cap in enumerate(ws):
-            F["workers"][f"p{pi}w{wi}"] = dict(cap)
+            tot = {}
+            for n, q in cap.items():  # "CPU#2" = a second entry of the name CPU
+                tot[n.split("#")[0]] = tot.get(n.split("#")[0], 0) + q
+            F["workers"][f"p{pi}w{wi}"] = tot
     F["pool_workers"] = {pi: [f"p{pi}w{wi}" for wi in range(len(ws))]
                          for pi, ws in enumerate(inst["cluster"])}
     for g in inst["graphs"]:
